@@ -2,8 +2,10 @@
 //!
 //! usage: vcheck <ID> [--tier quick|thorough] [--replay FILE] [--strict]
 
+mod binrun;
 mod engine;
 mod field;
+mod gen;
 mod props;
 
 use engine::*;
@@ -18,6 +20,22 @@ fn main() {
     let id = args[0].clone();
     install_panic_hook();
 
+    if id == "GEN" {
+        // debug: vcheck GEN <kind> <n> — print generated programs
+        let kind = args.get(1).map(|s| s.as_str()).unwrap_or("full");
+        let n: u64 = args.get(2).and_then(|s| s.parse().ok()).unwrap_or(3);
+        for k in 0..n {
+            let mut tape = Vec::new();
+            let mut h = engine::fnv(format!("gen{k}").as_bytes());
+            for _ in 0..600 {
+                h = h.wrapping_mul(6364136223846793005).wrapping_add(1442695040888963407);
+                tape.push((h >> 33) as u8);
+            }
+            println!("// ---- {kind} #{k}");
+            println!("{}", props::gen_debug(kind, &tape));
+        }
+        return;
+    }
     // Internal sub-commands (subprocess probes).
     if args.len() > 1 && args[1] == "--shift-probe" {
         std::process::exit(props::c16::shift_probe_main(&args[2..]));
